@@ -16,7 +16,9 @@ N1  accumulate-by-append loop  ->  list comprehension
     evaluates IT once, then per element COND and ELT in the same order as the loop.
 
 N2  `match` with value patterns -> if/elif chain;  N3  `with contextlib.suppress(E): B` -> try/except E: pass;
-N4  `for T in itertools.chain(A, B): B` -> one loop per operand (no break, no else).  See the comments at each.
+N4  `for T in itertools.chain(A, B): B` -> one loop per operand (no break, no else);  N5  eager comprehension over a
+generator function -> explicit loop;  N7  `with cm():` over a @contextmanager generator of the module -> the generator's
+body around the block.  See the comments at each.  (N6, undoing private renames, works on all modules: renames.py)
 """
 from __future__ import annotations
 
@@ -369,6 +371,147 @@ class _N5:
         return out
 
 
+# ------------------------------------------------------------------------------------------------
+# N7  `with cm(ARGS) [as X]: BODY`  where cm is a @contextlib.contextmanager generator of this module  ->  the
+#     generator's body with its single `yield [V]` replaced by `[X = V;] BODY`
+#
+#     contextlib runs the generator up to the yield on entry, BODY, and resumes it on exit: normally after the yield,
+#     or - when BODY raised - by throwing the exception in at the yield, where the generator's own except / finally
+#     clauses see it exactly as if BODY stood there.  Side conditions: one `with` item; cm is (by name, unique in the
+#     module) a function decorated with `contextmanager` that contains exactly one yield, not inside a loop or a nested
+#     function, and no `return`; it is called as `cm(..)`, `self.cm(..)` or `cls.cm(..)` with plain positional
+#     arguments, one per parameter (no defaults, no */**); if BODY contains return / break / continue, the yield is the
+#     last statement of every block around it and no enclosing try has an else branch (then nothing of the generator is
+#     skipped that __exit__ would have run).  Locals and parameters of the generator get a unique suffix.
+def _cm_defs(tree) -> t.Dict[str, ast.FunctionDef]:
+    out: t.Dict[str, t.Optional[ast.FunctionDef]] = {}
+    for n in ast.walk(tree):
+        if isinstance(n, ast.FunctionDef) and any(ast.unparse(d).split("(")[0].split(".")[-1] == "contextmanager"
+                                                  for d in n.decorator_list):
+            out[n.name] = None if n.name in out else n
+    return {k: v for k, v in out.items() if v is not None}
+
+
+def _single_yield_path(fn: ast.FunctionDef):
+    """-> list of (block list, index) from the function body down to the statement `yield [V]`, or None"""
+    found = []
+
+    def search(body, trail):
+        for i, st in enumerate(body):
+            if isinstance(st, ast.Expr) and isinstance(st.value, ast.Yield):
+                found.append(trail + [(body, i, None)])
+                continue
+            if isinstance(st, (ast.FunctionDef, ast.AsyncFunctionDef, ast.ClassDef)):
+                continue
+            if any(isinstance(x, (ast.Yield, ast.YieldFrom)) for x in ast.walk(st)):
+                if isinstance(st, (ast.For, ast.While, ast.AsyncFor)):
+                    found.append(None)
+                    continue
+                if isinstance(st, (ast.Try, ast.If, ast.With)):
+                    for field in ("body", "orelse", "finalbody"):
+                        sub = getattr(st, field, None)
+                        if isinstance(sub, list):
+                            search(sub, trail + [(body, i, field)])
+                    for h in getattr(st, "handlers", []) or []:
+                        search(h.body, trail + [(body, i, "handler")])
+                else:
+                    found.append(None)
+    search(fn.body, [])
+    if len(found) != 1 or found[0] is None:
+        return None
+    if any(isinstance(x, ast.Return) for x in ast.walk(fn)):
+        return None
+    return found[0]
+
+
+def _expand_cm(st: ast.With, cms: t.Dict[str, ast.FunctionDef]):
+    import copy
+    if len(st.items) != 1 or not isinstance(st.items[0].context_expr, ast.Call):
+        return None
+    call = st.items[0].context_expr
+    f = call.func
+    via_self = None
+    if isinstance(f, ast.Name):
+        name = f.id
+    elif isinstance(f, ast.Attribute) and isinstance(f.value, ast.Name) and f.value.id in ("self", "cls"):
+        name, via_self = f.attr, f.value.id
+    else:
+        return None
+    fn = cms.get(name)
+    if fn is None or call.keywords or any(isinstance(a, ast.Starred) for a in call.args):
+        return None
+    a = fn.args
+    if a.vararg or a.kwarg or a.kwonlyargs or a.defaults or a.posonlyargs:
+        return None
+    params = [x.arg for x in a.args]
+    if via_self is not None:
+        if not params or params[0] != via_self:
+            return None
+        params = params[1:]
+    if len(params) != len(call.args):
+        return None
+    trail = _single_yield_path(fn)
+    if trail is None:
+        return None
+    jumps = any(isinstance(x, (ast.Return, ast.Break, ast.Continue)) for b in st.body for x in ast.walk(b))
+    if jumps:
+        for body, i, field in trail:
+            if i != len(body) - 1:
+                return None
+            if field == "body" and isinstance(body[i], ast.Try) and body[i].orelse:
+                return None
+    fn2 = copy.deepcopy(fn)
+    trail2 = _single_yield_path(fn2)
+    suffix = f"_cm{st.lineno}"
+    local = set(params)
+    for n in ast.walk(fn2):
+        if isinstance(n, ast.Name) and isinstance(n.ctx, (ast.Store, ast.Del)):
+            local.add(n.id)
+        elif isinstance(n, ast.ExceptHandler) and n.name:
+            local.add(n.name)
+    for n in ast.walk(fn2):
+        if isinstance(n, ast.Name) and n.id in local:
+            n.id = n.id + suffix
+        elif isinstance(n, ast.ExceptHandler) and n.name in local:
+            n.name = n.name + suffix
+    body, i, _ = trail2[-1]
+    ystmt = body[i]
+    repl = []
+    if st.items[0].optional_vars is not None:
+        val = ystmt.value.value if ystmt.value.value is not None else ast.Constant(value=None)
+        repl.append(ast.copy_location(ast.Assign(targets=[st.items[0].optional_vars], value=val), st))
+    repl.extend(st.body)
+    body[i:i + 1] = repl
+    pre = [ast.copy_location(ast.Assign(targets=[ast.Name(id=p_ + suffix, ctx=ast.Store())], value=arg), st)
+           for p_, arg in zip(params, call.args)]
+    out = pre + [x for x in fn2.body if not (isinstance(x, ast.Expr) and isinstance(x.value, ast.Constant)
+                                              and isinstance(x.value.value, str))]
+    return out or [ast.copy_location(ast.Pass(), st)]
+
+
+class _N7:
+    def __init__(self, cms):
+        self.cms = cms
+        self.count = 0
+
+    def block(self, body):
+        out = []
+        for st in body:
+            for field in ("body", "orelse", "finalbody"):
+                sub = getattr(st, field, None)
+                if isinstance(sub, list) and sub and isinstance(sub[0], ast.stmt):
+                    setattr(st, field, self.block(sub))
+            for h in getattr(st, "handlers", []) or []:
+                h.body = self.block(h.body)
+            new = _expand_cm(st, self.cms) if isinstance(st, ast.With) else None
+            if new is not None:
+                self.count += 1
+                out.extend(new)
+            else:
+                out.append(st)
+        return out
+
+
 def normalise(tree: ast.Module) -> int:
     """rewrites tree in place, returns the number of rewrites"""
     st = _Stmts()
@@ -378,5 +521,23 @@ def normalise(tree: ast.Module) -> int:
     n5 = _N5(_generator_names(tree))
     if n5.gens:
         tree.body = n5.block(tree.body)
+    n7 = _N7(_cm_defs(tree))
+    if n7.cms:
+        tree.body = n7.block(tree.body)
+        # a private context manager whose every use was expanded is dead code: drop the definition (its statements
+        # now stand where they run)
+        for name, fn in n7.cms.items():
+            if not name.startswith("_"):
+                continue
+            inside = set(ast.walk(fn))
+            if any((isinstance(n, ast.Attribute) and n.attr == name) or (isinstance(n, ast.Name) and n.id == name)
+                   for n in ast.walk(tree) if n not in inside):
+                continue
+            for par in ast.walk(tree):
+                b = getattr(par, "body", None)
+                if isinstance(b, list) and fn in b:
+                    b.remove(fn)
+                    if not b:
+                        b.append(ast.copy_location(ast.Pass(), fn))
     ast.fix_missing_locations(tree)
-    return n1.count + st.count + n5.count
+    return n1.count + st.count + n5.count + n7.count
